@@ -399,7 +399,11 @@ def step(rng, pa, mo, st):
         for p in ('tag', 'pid', 'gid'):
             sm[p] = src.get_carray(p).get_npy_array().copy()
         names = names + ['tag', 'pid', 'gid']
-        pa.copy_properties(src, start, start + k)
+        if start + k == n and rng.rand() < 0.5:
+            # the default end: up to the last particle
+            pa.copy_properties(src, start_index=start)
+        else:
+            pa.copy_properties(src, start, start + k)
         for j in range(k):
             uid = cur[start + j]['uid']
             tgt = [m for m in mo.recs if m['uid'] == uid][0]
